@@ -136,11 +136,13 @@ func show(e SExpr) string {
 }
 
 func (ex *Exec) ghostHeapVal(name string, st *State) (Val, bool) {
+	if ex.V.db.IsTrace(name) {
+		return Val{T: ex.getHeap(st, name, ArrS(SInt, SEvent)), Ty: tyTrace}, true
+	}
+	if tr, ok := ex.V.db.IsTraceLen(name); ok {
+		return Val{T: ex.getHeap(st, tr+"len", SInt), Ty: tyInt}, true
+	}
 	switch name {
-	case "$tr":
-		return Val{T: ex.getHeap(st, "$tr", ArrS(SInt, SEvent)), Ty: tyTrace}, true
-	case "$trlen":
-		return Val{T: ex.getHeap(st, "$trlen", SInt), Ty: tyInt}, true
 	case "$nextref":
 		return Val{T: ex.getHeap(st, "$nextref", SInt), Ty: tyInt}, true
 	case "$held":
@@ -1027,8 +1029,8 @@ func (ex *Exec) checkFrame(env *Env, pos token.Pos) {
 			switch x := e.(type) {
 			case *SIdent:
 				whole[x.Name] = true
-				if x.Name == "$tr" {
-					whole["$trlen"] = true
+				if ex.V.db.IsTrace(x.Name) {
+					whole[x.Name+"len"] = true
 				}
 			case *SSel:
 				if id, ok := x.X.(*SIdent); ok {
